@@ -289,6 +289,9 @@ def job_recheck(E, prop, version, shape, P, K, dmg, source="ref", cpath="root", 
         fs.rename("/data/name", "/data/" + tname)
         del fs.log[:]
         meta["info"]["name"] = tname
+        if shape == "single" and isinstance(meta["info"].get("file tree"), dict):
+            # a single-file v2 tree has exactly one entry, keyed by the file's (= the torrent's) name
+            meta["info"]["file tree"] = {tname: v for v in meta["info"]["file tree"].values()}
     result, yields = run_checker(E, w, meta, "/data/" + (tname or "name") if cpath == "root" else "/data", prop)
     if getattr(E, "capture", None) is not None:
         E.capture.append((result, [(bool(c == p), n) for c, p, _, n in yields]))
@@ -391,9 +394,16 @@ def conc_world(params, model, workdir, seed):
     if tname:
         os.rename(os.path.join(workdir, "data", "name"), os.path.join(workdir, "data", tname))
         meta["info"]["name"] = tname
+        if single and isinstance(meta["info"].get("file tree"), dict):
+            meta["info"]["file tree"] = {tname: v for v in meta["info"]["file tree"].values()}
         with open(mpath, "wb") as f:
             f.write(refconc.bencode(meta))
     cpath = os.path.join(workdir, "data", tname or "name") if params.get("cpath", "root") == "root" else os.path.join(workdir, "data")
+    if meta is not None:
+        # sanity of the scenario itself (a malformed reference metafile must end as a harness error, not as a finding)
+        tree = meta["info"].get("file tree")
+        if single and isinstance(tree, dict):
+            assert list(tree) == [meta["info"]["name"]], "harness error: single-file tree key %r != name %r" % (list(tree), meta["info"]["name"])
     return mpath, cpath, data, disk, sizes
 
 
